@@ -217,8 +217,9 @@ def evaluate(case, stt):
     uniq_direct = {}
     for rel, fi in files.items():
         for key, lst in fi.op_names.items():
-            if len(lst) == 1:
-                uniq_direct.setdefault(key, []).append((rel, lst[0][0], lst[0][1]))
+            for pth, ps in lst:
+                uniq_direct.setdefault(key, []).append((rel, pth, ps))
+    # written exactly once in the whole workspace (an op like Destroy() may be written several times)
     uniq_direct = {k: v[0] for k, v in uniq_direct.items() if len(v) == 1}
     name_offsets = {}
     for off, op in emitted:
